@@ -4,6 +4,7 @@
   global ticket.
 -/
 import Babylon.Exec.Inv2
+import Babylon.Exec.QLemmas
 
 namespace Babylon.Exec
 open Babylon.Core
@@ -72,9 +73,8 @@ structure Inv3 (c : Cfg) (s : State) : Prop where
   a4 : ∀ id, s.loc id = .fin ↔ s.done id = true
   a5 : ∀ id, s.loc id = .nowhere ↔ s.known id = false
   /-- every real place is the ghost place -/
-  b1 : ∀ (i : Nat) (cl : Cell) (id : Nat), s.g.cells[i]? = some cl → cl.item = .task id → cl.st ≠ .free → s.loc id = .gq i
-  b2 : ∀ (k i : Nat) (cl : Cell) (id : Nat), (s.l k).cells[i]? = some cl → cl.item = .task id → cl.st ≠ .free →
-        s.loc id = .lq k i
+  b1 : ∀ (i id : Nat), s.g.itemAt i = some (.task id) → s.g.stAt i ≠ some .free → s.loc id = .gq i
+  b2 : ∀ (k i id : Nat), (s.l k).itemAt i = some (.task id) → (s.l k).stAt i ≠ some .free → s.loc id = .lq k i
   b3c : ∀ t id, (s.pc t).carry = some id → s.loc id = .hand t
   b3e : ∀ t id, (s.pc t).exec = some id → s.loc id = .hand t
   a6 : ∀ t a b, (s.pc t).carry = some a → (s.pc t).exec = some b → a ≠ b
